@@ -1,5 +1,7 @@
 import AsherahVerif.Model.KeyRef
 import AsherahVerif.Generated.KeyCacheFacts
+import AsherahVerif.Model.SessCache
+import AsherahVerif.Generated.SessCacheFacts
 /-
 `md_conc keyref <nKeys> <maxHeld> <maxObjs> <depth>`: bounded breadth-first exploration of the
 key-reference protocol model instantiated with the protocol facts REGENERATED from key_cache.go.
@@ -23,5 +25,21 @@ def keyref (args : List String) : String :=
     | some sched => ",".intercalate (sched.map showStep)
   let fs := s!"incrUnderReadLock={F.incrUnderReadLock},slowPathUnderWriteLock={F.slowPathUnderWriteLock},latestUnderWriteLock={F.latestUnderWriteLock},evictReleasesCacheRef={F.evictReleasesCacheRef},replaceReleasesOld={F.replaceReleasesOld}"
   s!"BFS engine=keyref facts={fs} states={states} transitions={trans} violation={v}"
+
+def showSStep : AsherahVerif.SessCache.Step → String
+  | .getHit p => s!"getHit({p})"
+  | .getLoad p v e => s!"getLoad({p},evict={match v with | some x => toString x | none => "-"},{if e then "expired" else "miss"})"
+  | .incr s => s!"incr({s})" | .use s => s!"use({s})" | .close s => s!"close({s})" | .remove s => s!"remove({s})"
+  | .factoryClose => "factoryClose"
+
+def sesscache (args : List String) : String :=
+  let n (i : Nat) (d : Nat) : Nat := ((args.getD i "").toNat?).getD d
+  let F := AsherahVerif.Generated.SessCacheFacts.facts
+  let (states, trans, viol) := AsherahVerif.SessCache.bfs F (n 0 2) (n 1 2) (n 2 4) (n 3 7)
+  let v := match viol with
+    | none => "none"
+    | some sched => ",".intercalate (sched.map showSStep)
+  let fs := s!"incrUnderCacheMutex={F.incrUnderCacheMutex},removeWaitsForZero={F.removeWaitsForZero},evictSpawnsRemover={F.evictSpawnsRemover},closeOnlyDecrements={F.closeOnlyDecrements}"
+  s!"BFS engine=sesscache facts={fs} states={states} transitions={trans} violation={v}"
 
 end AsherahVerif.Driver.Conc
